@@ -145,6 +145,9 @@ class Ctx:
                     "rustc nightly MIR construction (mir_built) and name/trait resolution",
                     "engine/ library model of std/bytes/futures adapters (DESIGN.md Appendix A)",
                     "tables/*.toml audited entries, ref/*.json RFC transcriptions",
+                    "engine/mir.py normalisations applied before the rules ran (expansion of helpers that are not in tables/known_functions.txt, "
+                    "resolution of unambiguous renames against tables/known_functions.txt / known_fields.txt); the ones applied in this run are "
+                    "counted under program.renames_resolved / program.helpers_expanded and printed as `note:` lines",
                 ],
                 "exhaustive": True,
             },
